@@ -43,8 +43,12 @@ func name(n cm.Node) string {
 
 // view is the child function pair presented to Walk (and used by the
 // reference walker): mode 0 = library defaults (nil functions), 1 = identity,
-// 2 = children reversed, 3 = at most two children; virtual = the zero Node is
-// a root whose children are the document's root blocks.
+// 2 = children reversed, 3 = at most two children, 4 = only ChildCount is
+// supplied (an outline view: paragraphs and headings are leaves, other nodes
+// show at most two children; Child is left nil, so the default applies),
+// 5 = only Child is supplied (children rotated by one; ChildCount is left
+// nil); virtual = the zero Node is a root whose children are the document's
+// root blocks.
 type view struct {
 	mode    int
 	virtual bool
@@ -61,8 +65,16 @@ func (v *view) count(n cm.Node) int {
 		return 0
 	}
 	c := n.ChildCount()
-	if v.mode == 3 && c > 2 {
+	if (v.mode == 3 || v.mode == 4) && c > 2 {
 		c = 2
+	}
+	if v.mode == 4 {
+		if b := n.Block(); b != nil {
+			switch b.Kind() {
+			case cm.ParagraphKind, cm.ATXHeadingKind, cm.SetextHeadingKind:
+				c = 0
+			}
+		}
 	}
 	return c
 }
@@ -74,6 +86,9 @@ func (v *view) child(n cm.Node, i int) cm.Node {
 	}
 	if v.mode == 2 {
 		return n.Child(n.ChildCount() - 1 - i)
+	}
+	if v.mode == 5 {
+		return n.Child((i + 1) % n.ChildCount())
 	}
 	return n.Child(i)
 }
@@ -132,8 +147,8 @@ func prop(c harness.Case) harness.Result {
 	root := cm.Node{}
 	if !v.virtual {
 		root = blocks[c.I["root"]%len(blocks)].AsNode()
-	} else if v.mode == 0 {
-		v.mode = 1 // a virtual root needs custom functions
+	} else if v.mode == 0 || v.mode >= 4 {
+		v.mode = 1 // a virtual root needs both custom functions
 	}
 	p := policy{prune: map[int]bool{}, abort: -1, nilPre: c.I["nilpre"] == 1, nilPos: c.I["nilpost"] == 1}
 	for _, o := range c.L["prune"] {
@@ -186,7 +201,13 @@ func prop(c harness.Case) harness.Result {
 			return ord != p.abort
 		}
 	}
-	if v.mode != 0 {
+	switch v.mode {
+	case 0:
+	case 4:
+		opts.ChildCount = v.count
+	case 5:
+		opts.Child = v.child
+	default:
 		opts.ChildCount = v.count
 		opts.Child = v.child
 	}
@@ -216,6 +237,15 @@ func prop(c harness.Case) harness.Result {
 	if p.nilPos {
 		res.Labels = append(res.Labels, "nil_post")
 	}
+	if d := treeDepth(root, v); d >= 17 {
+		res.Labels = append(res.Labels, "depth>=17")
+		if d >= 33 {
+			res.Labels = append(res.Labels, "depth>=33")
+		}
+	}
+	if nodes >= 200 {
+		res.Labels = append(res.Labels, "callbacks>=200")
+	}
 	res.Nontrivial = nodes >= 10 && (prunedInner || aborted || v.virtual || v.mode >= 2)
 
 	if cursorErr != nil {
@@ -233,6 +263,17 @@ func prop(c harness.Case) harness.Result {
 		}
 	}
 	return res
+}
+
+func treeDepth(n cm.Node, v *view) int {
+	pv := *v
+	best := 0
+	for i, c := 0, pv.count(n); i < c; i++ {
+		if d := treeDepth(pv.child(n, i), v); d > best {
+			best = d
+		}
+	}
+	return best + 1
 }
 
 func preOrdinal(evs []event, i int) int {
@@ -268,8 +309,13 @@ func firstDiff(a, b []event) int {
 }
 
 func genCase(t *rapid.T) harness.Case {
-	c := harness.Case{In: gen.Doc().Draw(t, "in")}
-	c.SetI("mode", rapid.IntRange(0, 3).Draw(t, "mode"))
+	var c harness.Case
+	if rapid.IntRange(0, 4).Draw(t, "deep") == 0 {
+		c = harness.Case{In: gen.Deep().Draw(t, "deepin")}
+	} else {
+		c = harness.Case{In: gen.Doc().Draw(t, "in")}
+	}
+	c.SetI("mode", rapid.IntRange(0, 5).Draw(t, "mode"))
 	if rapid.IntRange(0, 2).Draw(t, "virtual") == 0 {
 		c.SetI("virtual", 1)
 	}
@@ -283,19 +329,24 @@ func genCase(t *rapid.T) harness.Case {
 		c.SetI("nilpre", 1)
 		c.SetI("nilpost", 1)
 	}
+	// ordinals are mostly small (every tree has those), sometimes large (deep and wide trees)
+	maxOrd := 40
+	if rapid.IntRange(0, 3).Draw(t, "farord") == 0 {
+		maxOrd = 400
+	}
 	np := rapid.IntRange(0, 4).Draw(t, "nprune")
 	var prune []int
 	for i := 0; i < np; i++ {
-		prune = append(prune, rapid.IntRange(0, 40).Draw(t, "prune"))
+		prune = append(prune, rapid.IntRange(0, maxOrd).Draw(t, "prune"))
 	}
 	c.SetL("prune", prune)
 	if rapid.Bool().Draw(t, "hasabort") {
-		c.SetI("abort", rapid.IntRange(0, 40).Draw(t, "abort"))
+		c.SetI("abort", rapid.IntRange(0, maxOrd).Draw(t, "abort"))
 	}
 	return c
 }
 
-const rule = "tree = Parse(G1/G2/G3 input), one root block or a virtual root over all root blocks, x policy (set of Pre ordinals that prune, Post ordinal that aborts, nil Pre/Post, child-function view: defaults / identity / reversed / truncated); oracle = recursive reference walker's event list (kind, node, parent, index, enclosing block) plus cursor invariants; non-trivial = >= 10 callbacks and the policy prunes a node with children, aborts before the end, uses a virtual root or a non-identity view"
+const rule = "tree = Parse(G1/G2/G3 input), one root block or a virtual root over all root blocks, x policy (set of Pre ordinals that prune, Post ordinal that aborts, nil Pre/Post, child-function view: defaults / identity / reversed / truncated / ChildCount only / Child only); one case in five is a tree that is deep (up to 48 nested containers, 40 nested inlines) or wide (up to 150 siblings) by construction; oracle = recursive reference walker's event list (kind, node, parent, index, enclosing block) plus cursor invariants; non-trivial = >= 10 callbacks and the policy prunes a node with children, aborts before the end, uses a virtual root or a non-identity view"
 
 func TestProperty(t *testing.T) {
 	harness.Run(t, harness.Plan{Prop: "C18", Checks: []harness.Check{
